@@ -180,7 +180,7 @@ fn supervise(args: &[String], id: &str, verif_dir: &str) -> i32 {
         let path = format!("{}/crash-{:016x}.json", d, vh::ops::fnv64(body.as_bytes()));
         let _ = std::fs::write(&path, body);
         println!("VIOLATION property={} replay={}", id, path);
-        println!("  the checking process died abnormally (exit status {:?}) while executing {} in the replay file (memory corruption or a failed unsafe-precondition check inside the library)", code, what);
+        println!("  the checking process died abnormally (exit status {:?}) while executing {} in the replay file (memory corruption, a failed unsafe-precondition check or an aborting allocation failure inside the library)", code, what);
         1
     };
     // an in-process violation found while attributing the crash (a worker was shrinking or about
